@@ -37,6 +37,26 @@ def findPrevious (vs : List Nat) (version : Nat) : Option Nat :=
   | [] => none
   | v0 :: _ => if version < v0 then none else findPrevLoop vs version vs.length 0 vs.length
 
+/-- the loop of `VersionRange.Find` (same search, returns `vs[low]`) -/
+def findLoop (vs : List Nat) (version : Nat) : Nat → Nat → Nat → Option Nat
+  | 0, low, _ => vs[low]?
+  | fuel + 1, low, hi =>
+    if low < hi then
+      let mid := (low + (hi - 1)) / 2
+      match vs[mid]? with
+      | none => none
+      | some x =>
+        if x = version then some version
+        else if x < version then findLoop vs version fuel (mid + 1) hi
+        else findLoop vs version fuel low mid
+    else vs[low]?
+
+/-- `Find`: the shard (checkpoint) that contains the version; `none` is Go's -1 -/
+def find (vs : List Nat) (version : Nat) : Option Nat :=
+  match vs.getLast? with
+  | none => none
+  | some last => if last < version then none else findLoop vs version vs.length 0 vs.length
+
 /-! ### the change log -/
 
 inductive Ev (K V : Type) where
